@@ -379,6 +379,8 @@ pub fn create<N: std::fmt::Debug>(
             .collect();
         if !coin_ins.is_empty() {
             wd.m.shield_inputs.insert(tb, coin_ins);
+            wd.mine_pending_soon = true;
+            r.count("pending_transactions_spending_coins", 1);
         }
         let note_ins = crate::world::inkeys_notes(&ins);
         let built = wd.built_from_tx(&tx, &note_ins);
